@@ -39,14 +39,14 @@ func (c05) Meta() fw.Meta {
 			"(2) right after each Sync an independent observer handle (no flock) and the harness' byte parser must see, for every archive and 6 windows, exactly the series the live handle returns; " +
 			"(3a) the history is replayed up to 4 prefixes (incl. right after an unsynced page-straddling write) and the handle closed without Sync: file must equal the last synced image; " +
 			"(3b) a child process executes the history emitting op/sync-begin/sync-end records and is SIGKILLed after a PRNG-chosen number of records or delay, uncoordinated: unless the last record is sync-begin the file must hash to the last sync-end record; " +
-			"(4) the real copy command made to fail before its final Sync (-text-out /dev/full with > 4 KiB output, layout mismatch, corrupt source) must leave an existing destination byte-identical. " +
+			"(4) the real copy / sum-copy / generate commands made to fail before their final Sync (-text-out /dev/full with > 4 KiB output, layout mismatch, corrupt source, existing destination) must leave an existing destination byte-identical; (5) every 8th history runs on a file whose second archive has a damaged (unaligned) first slot, so that updates write their point and then fail while propagating: the following Sync must still make the file equal to the handle's state. " +
 			"non-trivial = history that dirtied a page-straddling slot and had a Sync with a non-contiguous dirty-page set; distinct by (layout, clock, ops).",
 		Assumptions: []string{
 			"'survives' means visible to any other reader of the file system; power-loss durability of fsync is not observable from inside one kernel",
 			"kills that land inside a Sync (last record sync-begin) are counted but not judged: the property speaks of points between Syncs",
 			"clock domain as C01",
 		},
-		Obligations: []string{"ops_with_byte_check", "syncs", "observer_windows_compared", "page_straddle_slot_dirtied", "sync_noncontiguous_dirty_pages", "abandon_prefixes", "kills_between_syncs", "kills_before_first_sync", "cli_failed_copy_dest_unchanged", "unsynced_dirty_state_checked"},
+		Obligations: []string{"ops_with_byte_check", "syncs", "observer_windows_compared", "page_straddle_slot_dirtied", "sync_noncontiguous_dirty_pages", "abandon_prefixes", "kills_between_syncs", "kills_before_first_sync", "cli_failed_copy_dest_unchanged", "unsynced_dirty_state_checked", "damaged_file_histories", "failed_updates_before_sync"},
 		Workers:     12,
 	}
 }
@@ -163,7 +163,29 @@ func (c05) Run(c *fw.Ctx) {
 		}
 	}()
 	synced := make([]byte, size) // image after the last successful Sync: all zero before the first
-	var syncedAfter [][]byte     // per op index: the synced image in force after that op
+	// damaged mode: the first slot of archive 1 holds an unaligned timestamp, so updates of archive 0 write
+	// their point into the page buffer and then FAIL while propagating. A following Sync must still make
+	// the file equal to the handle's state.
+	damaged := c.Index%8 == 5 && len(l.Archs) >= 2 && l.Archs[1].Step > 1
+	if damaged {
+		if err := db.Sync(); err != nil {
+			panic(err)
+		}
+		db.Close()
+		img, _ := ioutil.ReadFile(path)
+		bad := uint32(model.AlignDown(now0, l.Archs[1].Step) + 1)
+		img[offs[1]], img[offs[1]+1], img[offs[1]+2], img[offs[1]+3] = byte(bad>>24), byte(bad>>16), byte(bad>>8), byte(bad)
+		if err := ioutil.WriteFile(path, img, 0644); err != nil {
+			panic(err)
+		}
+		db, err = wt.Open(path)
+		if err != nil {
+			panic(err)
+		}
+		synced = img
+		c.Count("damaged_file_histories", 1)
+	}
+	var syncedAfter [][]byte // per op index: the synced image in force after that op
 	now := now0
 	dirtyPages := map[int64]bool{}
 	straddle, noncontig := false, false
@@ -220,13 +242,19 @@ func (c05) Run(c *fw.Ctx) {
 			now += op.Delta
 		case "single":
 			if err := db.UpdatePointForArchive(op.Arch, wt.Timestamp(op.Pt.T), wt.Value(math.Float64frombits(op.Pt.Bits)), u32(now)); err != nil {
-				c.Violationf("write-error", fw.J{"op": op, "err": err.Error()}, "write failed: %v", err)
-				return
+				if !damaged {
+					c.Violationf("write-error", fw.J{"op": op, "err": err.Error()}, "write failed: %v", err)
+					return
+				}
+				c.Count("failed_updates_before_sync", 1)
 			}
 		case "batch":
 			if err := db.UpdatePointsForArchive(toPoints(op.Pts), op.Arch, u32(now)); err != nil {
-				c.Violationf("write-error", fw.J{"op": op, "err": err.Error()}, "write failed: %v", err)
-				return
+				if !damaged {
+					c.Violationf("write-error", fw.J{"op": op, "err": err.Error()}, "write failed: %v", err)
+					return
+				}
+				c.Count("failed_updates_before_sync", 1)
 			}
 		}
 		post, _ := rawOf(db)
@@ -291,6 +319,10 @@ func (c05) Run(c *fw.Ctx) {
 				return
 			}
 			hs := int(l.HeaderSize())
+			if !everSynced && damaged {
+				headerBytes = append([]byte(nil), img[:hs]...)
+				everSynced = true
+			}
 			if !everSynced {
 				headerBytes = append([]byte(nil), img[:hs]...)
 				if !bytes.Equal(headerBytes, model.EncodeHeader(l)) {
@@ -354,6 +386,12 @@ func (c05) Run(c *fw.Ctx) {
 		return
 	}
 
+	if damaged {
+		if straddle || noncontig {
+			c.Nontrivial("damaged", l.String(), now0, fw.JSON(rec.Ops))
+		}
+		return // the replay-based monitors below start from a pristine file
+	}
 	// ---- monitor 3a: abandonment by Close without Sync at several prefixes
 	prefixes := map[int]bool{}
 	for len(prefixes) < minI(4, len(rec.Ops)) {
@@ -609,7 +647,11 @@ func c05CLI(c *fw.Ctx) {
 	mk("dest/it/sum.wsp", l, 5000)
 	scen = append(scen, sc{"sum-copy-text-out-dev-full", []string{"sum-copy", "-src-base", filepath.Join(dir, "srcsum"), "-item", "it", "-src", "*.wsp", "-dest-base", filepath.Join(dir, "dest"), "-dest", "sum.wsp",
 		"-agg-method", "sum", "-x-files-factor", "0", "-retentions", l.RetentionString(), "-text-out", "/dev/full"}, nil})
+	scen = append(scen, sc{"generate-on-existing-destination", []string{"generate", "-dest", destPath, "-agg-method", "sum", "-x-files-factor", "0", "-retentions", l.RetentionString()}, nil})
 	s := scen[r.Intn(len(scen))]
+	if c.Index%40 == 15 {
+		s = scen[len(scen)-1]
+	}
 	if s.name == "sum-copy-text-out-dev-full" {
 		destPath = filepath.Join(dir, "dest/it/sum.wsp")
 		before, _ = ioutil.ReadFile(destPath)
